@@ -456,6 +456,25 @@ pub fn step_adm(sim: &mut Sim, ctx: &mut Ctx, adm: &AdmSwarm) -> Option<Tx> {
                 return None;
             }
             let ma = *ctx.rng.pick(&us);
+            if ctx.rng.chance(1, 3) {
+                // wind the bank down first (flag + forced completion), so that the purge is
+                // accepted and judged, preferably on an account that really holds a deposit
+                sim.stats.fault("drill_purge_after_forced_wind_down");
+                let opt = BankConfigOpt { tokenless_repayments_allowed: Some(true), ..Default::default() };
+                sim.apply(Event::Tx(Tx::one("group_admin", ix::configure_bank(g.key, g.admins.admin, b.keys.bank, opt))));
+                sim.apply(Event::Tx(Tx::one("risk_admin", ix::force_tokenless_repay_complete(g.key, g.admins.risk, b.keys.bank))));
+                let holders: Vec<Pubkey> = us
+                    .iter()
+                    .filter(|m| {
+                        model::account_of(&sim.store, m)
+                            .map(|a| active_balances(&a).iter().any(|x| x.bank_pk == b.keys.bank && i80(x.asset_shares) >= I80F48::ONE))
+                            .unwrap_or(false)
+                    })
+                    .cloned()
+                    .collect();
+                let target = if holders.is_empty() { ma } else { *ctx.rng.pick(&holders) };
+                return Some(Tx::one("risk_admin", ix::purge_deleverage_balance(g.key, target, g.admins.risk, b.keys.bank)));
+            }
             Tx::one("risk_admin", ix::purge_deleverage_balance(g.key, ma, g.admins.risk, b.keys.bank))
         }
         9 => {
@@ -1151,7 +1170,12 @@ pub fn step_emi(sim: &mut Sim, ctx: &mut Ctx) -> Option<Tx> {
             let acc = model::account_of(&sim.store, &ma)?;
             let wallet = acc.emissions_destination_account;
             let expected = ix::ata(&wallet, &mint, &tp);
-            let dst = if wallet != Pubkey::default() && ctx.rng.chance(4, 5) {
+            // no destination registered: somebody creates the token account of the all-zero
+            // wallet and asks to be paid there (must be refused)
+            let dst = if (wallet != Pubkey::default() && ctx.rng.chance(4, 5)) || (wallet == Pubkey::default() && ctx.rng.chance(1, 2)) {
+                if wallet == Pubkey::default() {
+                    sim.stats.fault("emissions_permissionless_to_unregistered_default_wallet");
+                }
                 if sim.store.get(&expected).is_none() {
                     sim.apply(Event::SetAccount {
                         key: expected,
@@ -1206,14 +1230,74 @@ pub fn drill_kill_bank(sim: &mut Sim, ctx: &mut Ctx) {
         return;
     };
     sim.stats.fault("drill_kill_bank");
-    let d = (token_balance(&sim.store, &l_ta) / 1000).clamp(10, 1_000_000);
+    let d = (token_balance(&sim.store, &l_ta) / 1000).clamp(10_000, 1_000_000_000).min(token_balance(&sim.store, &l_ta));
     sim.apply(Event::Tx(Tx::one("user", ix::deposit(&y.keys, l_acc, lender.authority, l_ta, d, None))));
-    let c = token_balance(&sim.store, &b_ta_x) / 2;
-    sim.apply(Event::Tx(Tx::one("user", ix::deposit(&x.keys, b_acc, borrower.authority, b_ta_x, c.max(1), None))));
+    // variant: a bystander borrows a sliver first, the main borrower takes the rest, and years pass
+    // before the crash so that the main debt alone outgrows the deposits by the fee share of the
+    // interest (only then can a second debtor coexist with a killed bank)
+    let mut bystander_acc: Option<(Pubkey, Pubkey, Pubkey)> = None;
+    let with_bystander = ctx.world.users.len() >= 3 && ctx.rng.chance(1, 3);
+    if with_bystander {
+        let third = ctx.world.users[2].clone();
+        if let (Some(t_acc), Some(t_tx), Some(t_ty)) = (
+            third.maccounts.iter().find(|(g2, _)| *g2 == gi).map(|(_, m)| *m),
+            third.tokens.get(&x.keys.mint).cloned(),
+            third.tokens.get(&y.keys.mint).cloned(),
+        ) {
+            let c3 = token_balance(&sim.store, &t_tx) / 2;
+            sim.apply(Event::Tx(Tx::one("user", ix::deposit(&x.keys, t_acc, third.authority, t_tx, c3.max(1), None))));
+            let rm = crate::world::risk_metas(&sim.store, &t_acc, Some(y.keys.bank), None);
+            let sliver = (d / 500).max(1);
+            let o = sim.apply(Event::Tx(Tx::one("user", ix::borrow(&y.keys, t_acc, third.authority, t_ty, sliver, rm))));
+            if o.map(|o| o.ok()).unwrap_or(false) {
+                sim.stats.fault("drill_kill_bank_second_debtor");
+                bystander_acc = Some((t_acc, third.authority, t_ty));
+            }
+        }
+    }
+    // collateral sized from the debt, so that it is worth less than the debt once its price is at
+    // the floor (an account whose worthless collateral still outweighs a dust debt is not bankrupt)
     let vault = token_balance(&sim.store, &y.keys.liquidity_vault);
-    let rm = crate::world::risk_metas(&sim.store, &b_acc, Some(y.keys.bank), None);
-    let out = sim.apply(Event::Tx(Tx::one("user", ix::borrow(&y.keys, b_acc, borrower.authority, b_ta_y, vault, rm))));
-    if !out.map(|o| o.ok()).unwrap_or(false) {
+    let c_max = token_balance(&sim.store, &b_ta_x) / 2;
+    let mut c = c_max;
+    if let (Some(xb), Some(yb), Some(xi), Some(yi)) = (
+        model::bank_of(&sim.store, &x.keys.bank),
+        model::bank_of(&sim.store, &y.keys.bank),
+        ctx.world.bank_info(&x.keys.bank).cloned(),
+        ctx.world.bank_info(&y.keys.bank).cloned(),
+    ) {
+        let ai: f64 = I80F48::from_le_bytes(xb.config.asset_weight_init.value).to_num();
+        let li: f64 = I80F48::from_le_bytes(yb.config.liability_weight_init.value).to_num();
+        let debt_micro = vault as f64 * yi.price_micro as f64 / 10f64.powi(yb.mint_decimals as i32);
+        let want = 4.0 * li.max(1.0) / ai.max(0.01) * debt_micro * 10f64.powi(xb.mint_decimals as i32) / (xi.price_micro.max(1) as f64);
+        if want.is_finite() && want >= 1.0 && want < c_max as f64 {
+            c = want.ceil() as u64;
+        }
+    }
+    sim.apply(Event::Tx(Tx::one("user", ix::deposit(&x.keys, b_acc, borrower.authority, b_ta_x, c.max(1), None))));
+    let mut borrowed = false;
+    for _ in 0..4 {
+        let rm = crate::world::risk_metas(&sim.store, &b_acc, Some(y.keys.bank), None);
+        let out = sim.apply(Event::Tx(Tx::one("user", ix::borrow(&y.keys, b_acc, borrower.authority, b_ta_y, vault, rm))));
+        if out.map(|o| o.ok()).unwrap_or(false) {
+            borrowed = true;
+            break;
+        }
+        let more = c.min(token_balance(&sim.store, &b_ta_x));
+        if more == 0 {
+            break;
+        }
+        sim.apply(Event::Tx(Tx::one("user", ix::deposit(&x.keys, b_acc, borrower.authority, b_ta_x, more, None))));
+        c = c.saturating_mul(2);
+    }
+    if !borrowed {
+        return;
+    }
+    if bystander_acc.is_some() {
+        let years = ctx.rng.irange(1, 4) * 31_536_000;
+        sim.apply(Event::Advance { dt: years, dslot: years as u64 * 2, depoch: 0 });
+    }
+    if sim.violated() && sim.stop_on_violation {
         return;
     }
     // the collateral becomes worthless
@@ -1278,6 +1362,18 @@ pub fn drill_kill_bank(sim: &mut Sim, ctx: &mut Ctx) {
         .unwrap_or(false);
     if killed {
         sim.stats.fault("drill_bank_killed");
+        // users now touch the killed bank: every one of these must be refused
+        if let Some((acc, auth, ty)) = bystander_acc {
+            sim.stats.fault("drill_bank_killed_with_second_debtor");
+            sim.apply(Event::Tx(Tx::one("user", ix::repay(&y.keys, acc, auth, ty, 1, None))));
+            sim.apply(Event::Tx(Tx::one("user", ix::repay(&y.keys, acc, auth, ty, 1, Some(true)))));
+        }
+        let rm = crate::world::risk_metas(&sim.store, &l_acc, None, None);
+        sim.apply(Event::Tx(Tx::one("user", ix::withdraw(&y.keys, l_acc, lender.authority, l_ta, 1, None, rm))));
+        sim.apply(Event::Tx(Tx::one("user", ix::deposit(&y.keys, l_acc, lender.authority, l_ta, 1, None))));
+        if sim.violated() && sim.stop_on_violation {
+            return;
+        }
     }
     for st in [BankOperationalState::Operational, BankOperationalState::ReduceOnly, BankOperationalState::Paused] {
         if !ctx.rng.chance(2, 3) {
